@@ -25,6 +25,9 @@ CHECKS = {
  "C05": dict(cat="fault_enumeration", engine="E1-choice-tree", tech=TECH_FAULT,
    text="52 write operations (Create/CreateInBatches/Save/Update(s)/Delete over nested graphs: belongs-to, has-one, has-many, many-to-many, polymorphic; FullSaveAssociations; Select-ed association deletes) x dialectors (RETURNING, LastInsertId; thorough adds PrepareStmt): the fault-free run fixes the driver calls and hook invocations, then every single fault (quick) / every set of up to 3 faults (thorough) at every driver call and hook invocation is enumerated; oracle: full dump of 9 tables equals the pre-state whenever a fault fired, the injected error is returned, no open transaction or checked-out connection",
    note="SQLite dialect; faults on ROLLBACK are never injected; a failed COMMIT rolls back; 2 open known findings (Save fallback spans two implicit transactions)"),
+ "C06": dict(cat="model_checking", engine="E3-enumeration", tech="explicit-state search over histories of interleaved derivations on a tree of reusable handles, every transition executed on the implementation; self-differential oracle (the same call list replayed alone on a fresh gorm.Open)",
+   text="histories = base chain of <=3 calls (59 chain calls in 18 clause kinds, argument variants chosen to leave spare slice capacity) -> handle maker (Session, WithContext, Debug, Begin, or the Open handle) -> two forks of <=2 calls, in every schedule of building/executing the forks and optionally executing the base handle in between; finishers DryRun Find/First/Count/Update/Delete/Create, fork-becomes-handle, and real Find/Count/First/Count-then-Find on SQLite; after every transition SQL+Vars+error of every finished chain and of probes on every live handle must equal those of the same call list replayed alone on a fresh gorm.Open; 1.85 M histories / 9.4 M transitions quick, 19.9 M / 100 M thorough",
+   note="intermediate chain objects are used linearly (forks only at reusable handles); Count-then-Find with pending Scopes is skipped (reuse of a finished chain); 3 defects fixed in /repo, 1 open known finding"),
  "C07": dict(cat="model_checking", engine="E2-scheduler", tech=TECH_SCHED + "; the same schedules are re-run in a -race build whose hand-offs are invisible to ThreadSanitizer, so every explored schedule is also judged by the Go race detector",
    text="2-4 goroutines share one *gorm.DB (cold or warm schema cache, with/without PrepareStmt, DryRun and real SQLite) and run programs over a cyclic model family (belongs-to/has-many cycle, many-to-many, polymorphic has-one/has-many, embedded, serializer field, unrelated models): joins, preloads, nested preload, create with nested graph, update, delete, association mode, struct conditions, first-use Session{PrepareStmt}; every interleaving up to the preemption bound is executed on the instrumented schema.go/relationship.go/gorm.go/prepare_stmt.go; oracle per schedule: no deadlock/panic, every thread's observations (SQL+vars or rows, errors) equal the serial run, final rows and the canonical dump of all cached schemas equal the serial run; race pass: no data race between two gorm statements outside known_findings.json (28 pairs of 3 root causes recorded)",
    note="database/sql, SQLite and reflection are atomic steps; <=4 goroutines; races judged by Go's happens-before on the explored schedules; concurrent Transaction blocks on the same SQLite tables are outside the alphabet"),
